@@ -593,6 +593,19 @@ impl Settings {
     }
 }
 
+#[cfg(hyperium_h3_verif)]
+impl Settings {
+    /// Direct access to the SETTINGS payload decoder (verification harnesses only)
+    pub fn verif_decode<T: Buf>(buf: &mut T) -> Result<Settings, SettingsError> {
+        Self::decode(buf)
+    }
+
+    /// The entries in wire order (verification harnesses only)
+    pub fn verif_entries(&self) -> &[(SettingId, u64)] {
+        &self.entries[..self.len]
+    }
+}
+
 #[derive(Debug, PartialEq)]
 pub enum SettingsError {
     Exceeded,
